@@ -49,7 +49,7 @@ def _install():
         if type(value) is not int:
             raise TypeError("leaf: not a token")
         if leaf_ok(bool(transformer.no_data_loss), bool(transformer.no_explicit_cast), value):
-            return Leaf(value)
+            return t(value)
         raise ValueError("leaf: rejected token")
 
     _STATE["installed"] = True
@@ -74,7 +74,10 @@ def ty_src(t, pfx):
 
 
 def class_source(classes, pfx):
-    src = ["from typing import Optional, List, Dict, Tuple, Union", "from utype import Schema, Options"]
+    src = ["from typing import Optional, List, Dict, Tuple, Union", "from utype import Schema, Options",
+           # a leaf class of this declaration's own: typing caches `List[Union[A, B]]` by *set* of members, so a
+           # shared leaf class would let another declaration's member order leak into this one
+           "class Leaf(BaseLeaf):", "    __slots__ = ()"]
     for k, c in enumerate(classes):
         o = c.get("opts", {})
         args = []
@@ -109,7 +112,7 @@ def build_classes(classes):
     pfx = "K%dx" % _STATE["modn"]
     mod = types.ModuleType(name)
     sys.modules[name] = mod
-    mod.__dict__["Leaf"] = Leaf
+    mod.__dict__["BaseLeaf"] = Leaf
     exec(compile(class_source(classes, pfx), name, "exec"), mod.__dict__)
     out = [mod.__dict__["%s%d" % (pfx, k)] for k in range(len(classes))]
     if len(_CLS_CACHE) > 400:
@@ -556,6 +559,27 @@ def gen_type(rng, ncls, k, height, allow_later, used_later, in_union=False):
     return {"union": args}
 
 
+def canon_unions(classes):
+    """typing caches generic aliases by the *set* of union members: within one declaration the same member set
+    must always be spelt in the same order (the first one generated), or the cache decides the order"""
+    first = {}
+
+    def go(t):
+        if t in ("leaf", "none") or "data" in t:
+            return t
+        for key in ("list", "tuple", "dict"):
+            if key in t:
+                return dict(t, **{key: go(t[key])})
+        args = [go(a) for a in t["union"]]
+        sig = json.dumps(sorted(json.dumps(a, sort_keys=True) for a in args))
+        if sig in first:
+            return {"union": first[sig]}
+        first[sig] = args
+        return {"union": args}
+
+    return [dict(c, fields=[[n, go(t)] for n, t in c["fields"]]) for c in classes]
+
+
 def gen_decl(rng, limited=None):
     ncls = rng.choice([1, 1, 2, 2, 3])
     uniform = rng.random() < 0.7
@@ -570,7 +594,7 @@ def gen_decl(rng, limited=None):
         for i in range(nf):
             fields.append(["f%d" % i, gen_type(rng, ncls, k, 3, True, used_later)])
         classes.append({"opts": opts_for(rng, md, umode), "fields": fields})
-    return classes
+    return canon_unions(classes)
 
 
 def gen_val(rng, classes, t, budget, p_bad, ctx):
